@@ -59,6 +59,42 @@ pub fn recorder_contract() -> Box<dyn Contract<Empty>> {
     Box::new(ContractWrapper::new(rec_execute, rec_instantiate, rec_query))
 }
 
+/// A contract that acts for its operator: it sends on whatever messages it is given (a minimal proxy / DAO
+/// treasury). It has no cw20 Receive handler and answers no queries - tokens can reach it by plain transfer only.
+#[cw_serde]
+pub enum RelayExec {
+    Relay { msgs: Vec<cosmwasm_std::CosmosMsg> },
+}
+
+fn relay_instantiate(_deps: DepsMut, _env: Env, _info: MessageInfo, _msg: Empty) -> StdResult<Response> {
+    Ok(Response::default())
+}
+
+fn relay_execute(_deps: DepsMut, _env: Env, _info: MessageInfo, msg: RelayExec) -> StdResult<Response> {
+    match msg {
+        RelayExec::Relay { msgs } => Ok(Response::new().add_messages(msgs)),
+    }
+}
+
+fn relay_query(_deps: Deps, _env: Env, _msg: Empty) -> StdResult<Binary> {
+    Err(StdError::generic_err("the relay answers no queries"))
+}
+
+pub fn relay_contract() -> Box<dyn Contract<Empty>> {
+    Box::new(ContractWrapper::new(relay_execute, relay_instantiate, relay_query))
+}
+
+/// `try_exec` with `sender` as the caller; when `sender` is the relay contract the call is made by the relay
+/// (its operator hands it the message, the funds come out of the relay's own balance)
+pub fn exec_as<T: Serialize + std::fmt::Debug>(app: &mut App, relay: Option<&Addr>, operator: &Addr, sender: &Addr, contract: &Addr, msg: &T, funds: &[Coin]) -> Result<AppResponse, String> {
+    if relay == Some(sender) {
+        let inner = cosmwasm_std::WasmMsg::Execute { contract_addr: contract.to_string(), msg: to_json_binary(msg).map_err(|e| e.to_string())?, funds: funds.to_vec() };
+        try_exec(app, operator, sender, &RelayExec::Relay { msgs: vec![inner.into()] }, &[])
+    } else {
+        try_exec(app, sender, contract, msg, funds)
+    }
+}
+
 pub fn fixed_contract() -> Box<dyn Contract<Empty>> {
     Box::new(ContractWrapper::new(
         cw3_fixed_multisig::contract::execute,
